@@ -6,6 +6,18 @@ ids = [json.loads(l)["id"] for l in open(os.path.join(HERE, "properties.jsonl"))
 
 # pid -> (category, text, level_note, technique, design_ref)
 CLAIMS = {
+ "C27": ("other",
+         "push_frame is called only by call_subroutine/call_interrupt with caller = prefetch_pc(), callee = target/vector and the right frame type; pop_frame only in the RTI success path and in JMP under reg_no()==7; the JSR and TRAP arms reach the end of the step only through their helper (no direct link/jump); prefetch=true is stored before the device-interrupt entry and prefetch=false before the instruction match; frame_no is +1/saturating -1 in exactly those two functions with the frame list pushed/popped alongside; the Frame record, the signature table per frame type, R6-4 frame pointer, mem[fp+4+i] / register argument capture and the built-in x20..x25 signatures are checked on MIR.",
+         "Depth arithmetic as a consequence of the counter discipline is argued, not computed. Trusted: rustc MIR, mirfacts, rules/lib.",
+         "who-may-call ownership, path-cut (must-pass-through) on the CFG, dominance of flag stores, provenance of record fields", "5 C27"),
+ "C28": ("other",
+         "update_mem_accesses has exactly three call sites (read_mem: READ; write_mem: WRITTEN, MODIFIED) with the address argument; their exact local guard sets are {track_access}, {success, track_access}, {success, track_access, value-changed}; the MODIFIED test compares the stored data with the pre-store value of mem[addr]; the mirror word is stored iff success; observer.clear() runs once before the step(s) of run_while/step_in and nowhere else; omnipotent() does not track; the flags are distinct bits, accessors test their own bit, updates are OR-ed into the entry.",
+         "That every program access goes through read_mem/write_mem with a tracked context is C09. Trusted: rustc MIR, mirfacts, rules/lib.",
+         "who-may-call + exact local-guard analysis on the CFG", "5 C28"),
+ "C29": ("other",
+         "Constructor order (memory/registers from the configured filler, I/O page zero-filled, then load_os, no branch in between); frame rule of load_obj_file (stores only `alloca`, lends only `mem`, to copy_obj_block only); the external guard precedes every copy and the copy is conditional only on the block loop; copy_obj_block accesses memory only through the six range slices si..ei/si../..ei with end = start +w chunk.len() and start = end afterwards, writes Word::new_init(v) for Some-chunks and only clear_init() for None-chunks.",
+         "'No other word changes' is decided only as the exact set of memory index operations; values of the index arithmetic are not computed. Trusted: rustc MIR, mirfacts, rules/lib.",
+         "dominance, field write/borrow sets (frame rule), exact enumeration of index operations", "5 C29"),
  "C09": ("other",
          "In read_mem and write_mem the AccessViolation return (condition normalised to !ctx.privileged && addr outside [x3000,xFE00), range read from the promoted constant) precedes every call and every store of the function (CFG reachability: nothing effectful can reach the error return); only an enumerated owner set indexes the memory array or calls device io_read/io_write/InternalRegister; every read_mem/write_mem call reachable from step passes default_mem_ctx() or a struct update of it changing only `strict`; default_mem_ctx().privileged is psr.privileged() || ignore_privilege; handle_interrupt takes its context after set_privileged(true); every RTI effect is guarded by exactly the two-way privilege test; writers of Simulator.psr are enumerated and the field is private.",
          "Host code with &mut Simulator can use public fields; the claim is about simulated user-mode code. 'Leaves state unchanged' is claimed as guard-first. Trusted: rustc MIR, mirfacts, rules/lib.",
